@@ -5,7 +5,8 @@
 //	uri     <passes p>[L][@sched] <finalNL> <file> <line tokens...>     (L: provider with preload: true;
 //	        @sched: instance schedule, digits = instance ids, an event of an instance that holds no ammo is
 //	        an Acquire, otherwise the shoot (request materialised, body read) + Release of what it holds;
-//	        then optionally %n,n,..: the ammo file is read in short reads of these sizes, cyclically)
+//	        then optionally %n,n,..: the ammo file is read in short reads of these sizes, cyclically;
+//	        then optionally ^hex.hex...: the provider's configured default headers, one "[Name: value]" each)
 //	uripost <passes p> <finalNL> <file> <line tokens...>
 //	raw     <passes p> <finalNL> <file> <line tokens...>
 //	json    <passes p> <array 0|1> <file> <entity tokens...>
@@ -35,7 +36,13 @@ func runCase(c string) string {
 	// passes field: "<p>" or "<p>L" (L = with preload: true)
 	// then optionally "@<schedule>": instance schedule, see a07ammo/sched.go
 	// and optionally "%<n,n,...>": the file hands out its content in short reads of these sizes (cyclic)
-	pf, chunkSpec, hasChunks := strings.Cut(f[1], "%")
+	// and optionally "^<hex>.<hex>...": the provider's configured default headers (`headers:` list)
+	pf, cfgSpec, hasCfg := strings.Cut(f[1], "^")
+	var cfgHeaders []string
+	if hasCfg {
+		cfgHeaders = a07ammo.ParseCfgField(cfgSpec)
+	}
+	pf, chunkSpec, hasChunks := strings.Cut(pf, "%")
 	pf, sched, hasSched := strings.Cut(pf, "@")
 	var chunks []int
 	if hasChunks {
@@ -61,15 +68,15 @@ func runCase(c string) string {
 		}
 		switch f[0] {
 		case "uri", "uripost", "raw", "json":
-			return a07ammo.RunProviderSched(dec, file, preload, sched, chunks)
+			return a07ammo.RunProviderSchedCfg(dec, file, preload, sched, chunks, cfgHeaders)
 		}
 		return "unknown-case"
 	}
 	switch f[0] {
 	case "uri", "uripost", "raw":
-		return a07ammo.RunProviderOpt(f[0], file, p*n+1, 0, 0, preload)
+		return a07ammo.RunProviderCfg(f[0], file, p*n+1, 0, 0, preload, cfgHeaders)
 	case "json":
-		return a07ammo.RunProviderOpt("jsonline", file, p*n+1, 0, 0, preload)
+		return a07ammo.RunProviderCfg("jsonline", file, p*n+1, 0, 0, preload, cfgHeaders)
 	}
 	return "unknown-case"
 }
@@ -81,6 +88,7 @@ func gen(r *vh.Rand, tier string) []string {
 	}
 	out := a07ammo.GenBigCases(r, tier == "thorough")
 	out = append(out, a07ammo.GenRound5Cases(r, n/5)...)
+	out = append(out, a07ammo.GenCfgCases(r, n/5)...)
 	for i := 0; i < n; i++ {
 		out = append(out, a07ammo.GenURICase(r))
 		out = append(out, a07ammo.GenURIPostCase(r))
